@@ -91,9 +91,10 @@ class MementoException(RuntimeError):
                             self.message, self.stack_trace
                         )
                     )
-                except TypeError:
-                    # If we couldn't construct the exception (e.g. it has required parameters),
-                    # just return this as a MementoException
+                except Exception:
+                    # If we couldn't construct the exception (e.g. it has required parameters, or
+                    # its constructor does not accept the replay message), just return this as a
+                    # MementoException
                     return self
             else:
                 # If this is an exception from another language, return this as a MementoException
